@@ -275,8 +275,8 @@ Definition parse_cl (s : pystr) : option cl :=
                  else (None, n1, r1)
     | [] => (None, n1, r1)
     end in
-  (* line_re: `;?` before the parameters tolerates one extra semicolon *)
-  let r := match r with c :: (d :: _) as r' => if (c =? SEMI) && (d =? SEMI) then r' else r | _ => r end in
+  (* line_re: `;?` before the parameters tolerates one extra semicolon (before a parameter or before the colon) *)
+  let r := match r with c :: (d :: _) as r' => if (c =? SEMI) && ((d =? SEMI) || (d =? COLON)) then r' else r | _ => r end in
   match parse_params (S (List.length r)) r with
   | Some (raw, v) =>
       let ps := merge_params raw in
